@@ -143,7 +143,8 @@ def gen_spec(rng, cid):
         layout = "categorical"
     spec = dict(id=cid, seed=rng.randrange(10 ** 6), dim=16 if layout == "categorical" else (rng.choice([2, 3, 5]) if layout == "offsets" else rng.choice([4, 6])),
                 sizes=sizes, layout=layout, spread=rng.choice([30.0, 100.0]), positive=metric in ("canberra", "hellinger"),
-                metric=metric, k=k, tree_init=rng.choice([True, True, False]), search_size=search_size)
+                metric=metric, k=k, tree_init=rng.choice([True, True, False]), search_size=search_size,
+                n_jobs=rng.choice([None, None, None, 2, 4]))
     if rng.random() < 0.3:
         spec["update"] = True
         spec["update_sizes"] = [rng.randrange(k + 1, 16) for _ in range(rng.choice([1, 2]))]
@@ -229,7 +230,7 @@ def run(ctx):
                    "NOT modelled: the restricted graph search closure and the alternating loop of find_component_connection_edge "
                    "(termination observed under the watchdog, not proved)"]
     ctx.assumptions = ["the graph passed is adjacency_matrix_representation(index.neighbor_graph) of the same prepared index",
-                       "n_jobs=None (sequential edge search)",
+                       "n_jobs None, 2 or 4 for the per-pair edge searches",
                        "a call is reported as non-terminating when it exceeds %d s (%d s when a closure must be compiled)" % (CALL_TIMEOUT, FIRST_CALL_TIMEOUT)]
     ctx.notes["rule"] = ("rejection_sample: pools 1..1000, requests 0..pool, random generator states; connect_graph: 2..6 clusters, cluster "
                          "sizes from n_neighbors+1 up (below, at and above search_size in {3,10,20}), 10 metrics with and without surrogate, "
